@@ -56,3 +56,109 @@ def br_axiom(b):
 @c.ensures(note="C03/C16: byte values survive encode-then-decode unchanged")
 def br_identity(b, result):
     return result == b
+
+
+# ---- date / time / uuid / datetime hooks: each is the stated stdlib composition; round trips follow from the assumed inverse laws --------------
+from datetime import date, time  # noqa: E402
+from uuid import UUID  # noqa: E402
+from pyopenapi_gen.core.cattrs_converter import structure_time, structure_uuid, unstructure_time, unstructure_uuid  # noqa: E402
+
+c = contract(f"{CV}:structure_date", props=["C03", "C16"], functional_opaque=["date.fromisoformat", "fromisoformat"])
+
+@c.ensures(note="an ISO date string is parsed by date.fromisoformat, a date passes through")
+def sd_post(data, _, result):
+    if isinstance(data, date):
+        return result is data
+    return isinstance(data, str) and result == date.fromisoformat(data)
+
+@c.raises
+def sd_raises(data, _, exc):
+    return not isinstance(data, date)
+
+
+c = contract(f"{CV}:unstructure_time", props=["C03", "C16"], functional_opaque=["data.isoformat", "isoformat"], nothrow_calls=["isoformat"], nothrow=True)
+
+@c.ensures
+def ut_post(data, result):
+    return result == data.isoformat()
+
+
+c = contract(f"{CV}:structure_time", props=["C03", "C16"], functional_opaque=["time.fromisoformat", "fromisoformat"])
+
+@c.ensures(note="an ISO time string is parsed by time.fromisoformat, a time passes through")
+def st_post(data, _, result):
+    if isinstance(data, time):
+        return result is data
+    return isinstance(data, str) and result == time.fromisoformat(data)
+
+@c.raises
+def st_raises(data, _, exc):
+    return not isinstance(data, time)
+
+
+c = contract(f"{CV}:unstructure_uuid", props=["C03", "C16"], nothrow=True)
+
+@c.ensures
+def uu_post(data, result):
+    return result == str(data)
+
+
+c = contract(f"{CV}:structure_uuid", props=["C03", "C16"], functional_opaque=["UUID", "uuid.UUID"])
+
+@c.ensures(note="a string is parsed by UUID(...), a UUID passes through")
+def su_post(data, _, result):
+    if isinstance(data, UUID):
+        return result is data
+    return isinstance(data, str) and result == UUID(data)
+
+@c.raises
+def su_raises(data, _, exc):
+    return not isinstance(data, UUID)
+
+
+def date_roundtrip(d):
+    return structure_date(unstructure_date(d), date)
+
+
+c = contract("contracts.leafhooks:date_roundtrip", props=["C03", "C16"], functional_opaque=["date.fromisoformat", "fromisoformat", "d.isoformat", "isoformat"])
+
+@c.requires
+def dr_axiom(d):
+    """assumed stdlib law: date.fromisoformat(d.isoformat()) == d for a date d, and isoformat() returns a str"""
+    return isinstance(d, date) and isinstance(d.isoformat(), str) and date.fromisoformat(d.isoformat()) == d
+
+@c.ensures(note="C03/C16: date values survive unstructure-then-structure unchanged")
+def dr_identity(d, result):
+    return result == d
+
+
+def time_roundtrip(t):
+    return structure_time(unstructure_time(t), time)
+
+
+c = contract("contracts.leafhooks:time_roundtrip", props=["C03", "C16"], functional_opaque=["time.fromisoformat", "fromisoformat", "t.isoformat", "isoformat"])
+
+@c.requires
+def tr_axiom(t):
+    """assumed stdlib law: time.fromisoformat(t.isoformat()) == t, isoformat() returns a str"""
+    return isinstance(t, time) and isinstance(t.isoformat(), str) and time.fromisoformat(t.isoformat()) == t
+
+@c.ensures(note="C03/C16: time values survive unstructure-then-structure unchanged")
+def tr_identity(t, result):
+    return result == t
+
+
+def uuid_roundtrip(u):
+    return structure_uuid(unstructure_uuid(u), UUID)
+
+
+c = contract("contracts.leafhooks:uuid_roundtrip", props=["C03", "C16"], functional_opaque=["UUID", "uuid.UUID"])
+
+@c.requires
+def ur_axiom(u):
+    """assumed stdlib law: UUID(str(u)) == u"""
+    return isinstance(u, UUID) and UUID(str(u)) == u
+
+@c.ensures(note="C03/C16: UUID values survive unstructure-then-structure unchanged")
+def ur_identity(u, result):
+    return result == u
